@@ -362,3 +362,93 @@ func NSQuirks(r *rng.R, d *Doc, undeclare bool) {
 	}
 	walk(d.Root, nil)
 }
+
+// Thresholds are sizes around which implementations tend to change strategy
+// (small-buffer fast paths, fixed arrays, bisection limits, integer widths).
+var Thresholds = []int{9, 16, 17, 33, 64, 65, 66, 130, 257, 300, 520, 1030}
+
+// Widen appends n children to a randomly chosen element: elements named from
+// the document's own vocabulary, now and then a comment or (never adjacent)
+// a text node. The caller must call Finish afterwards. Returns the element.
+func Widen(r *rng.R, d *Doc, n int, xmlSafe bool) *Node {
+	els := d.Elements()
+	e := rng.Pick(r, els)
+	names := map[string]bool{}
+	var vocab []*Node
+	for _, x := range els {
+		k := x.Space + "|" + x.Local
+		if !names[k] {
+			names[k] = true
+			vocab = append(vocab, x)
+		}
+	}
+	lastText := len(e.Children) > 0 && e.Children[len(e.Children)-1].Kind == Text
+	for i := 0; i < n; i++ {
+		switch k := r.Intn(10); {
+		case k == 0 && !lastText:
+			d.AddText(e, fmt.Sprint(r.Intn(100)))
+			lastText = true
+			continue
+		case k == 1:
+			d.AddComment(e, "w")
+		default:
+			v := rng.Pick(r, vocab)
+			c := d.AddElem(e, v.Space, v.Local)
+			c.NoXMLNS = e.NoXMLNS
+			if r.P(30) {
+				d.AddText(c, fmt.Sprint(r.Intn(50)))
+			}
+			if r.P(10) {
+				d.AddAttr(c, "", "id", fmt.Sprint(i))
+			}
+		}
+		lastText = false
+	}
+	return e
+}
+
+// ManyAttrs gives a randomly chosen element that has children k further
+// attributes a1..ak (no namespace). The caller must call Finish afterwards.
+func ManyAttrs(r *rng.R, d *Doc, k int) *Node {
+	var cands []*Node
+	for _, e := range d.Elements() {
+		if len(e.Children) > 0 {
+			cands = append(cands, e)
+		}
+	}
+	if len(cands) == 0 {
+		cands = d.Elements()
+	}
+	e := rng.Pick(r, cands)
+	for i := 1; i <= k; i++ {
+		d.AddAttr(e, "", fmt.Sprintf("a%d", i), fmt.Sprint(i))
+	}
+	return e
+}
+
+// ManyDecls gives a randomly chosen element below the document element k
+// further namespace declarations of its own (prefixes m1..mk, some sorting
+// before and some after the usual ones). The caller must call Finish.
+func ManyDecls(r *rng.R, d *Doc, k int) *Node {
+	var cands []*Node
+	for _, e := range d.Elements() {
+		if e.Parent != nil && e.Parent.Kind == Elem {
+			cands = append(cands, e)
+		}
+	}
+	if len(cands) == 0 {
+		return nil
+	}
+	e := rng.Pick(r, cands)
+	have := map[string]bool{}
+	for _, dc := range e.Decls {
+		have[dc.Prefix] = true
+	}
+	for i := 1; i <= k; i++ {
+		p := fmt.Sprintf("%c%d", "amz"[i%3], i)
+		if !have[p] {
+			e.Decls = append(e.Decls, Decl{Prefix: p, URI: fmt.Sprintf("urn:m:%d", i)})
+		}
+	}
+	return e
+}
